@@ -412,6 +412,25 @@ func families() []family {
 		{name: "F2k escaped keys at every nesting level", id: "F2", gen: func(n int) [][]byte {
 			return one(strings.Repeat(`{"\n":`, n) + "0" + strings.Repeat("}", n))
 		}, run: readAll},
+		{name: "F4 one long string: escaped quote, then \\u escapes separated by single bytes", gen: func(n int) [][]byte {
+			return one(`"\"` + strings.Repeat(`\u0436 `, n*4) + `"`)
+		}, run: func(docs [][]byte) {
+			readAll(docs)
+			var buf []byte
+			for _, d := range docs {
+				buf, _, _ = rjson.ReadStringBytes(d, buf[:0])
+				rjson.ReadString(d, nil)
+			}
+		}},
+		{name: "F4k one long escaped key and a string value with many escaped quotes", gen: func(n int) [][]byte {
+			return one(`{"\"` + strings.Repeat(`\u00e9x`, n*2) + `":"` + strings.Repeat(`\"\ud83d\ude00`, n) + `"}`)
+		}, run: readAll},
+		{name: "F4b StdLibCompatibleStringBytes / UnescapeStringContent on one long input, empty destination", gen: func(n int) [][]byte {
+			return [][]byte{[]byte(strings.Repeat("a\xffé", n*4)), []byte(strings.Repeat(`\u0041\"\n`, n*4))}
+		}, run: func(docs [][]byte) {
+			rjson.StdLibCompatibleStringBytes(docs[0], nil)
+			rjson.UnescapeStringContent(docs[1], nil)
+		}},
 		{name: "deep arrays through ReadValue", gen: func(n int) [][]byte { return one(string(nested(n, "[", "1", true))) }, run: readAll},
 		{name: "wide flat array through ReadValue", gen: func(n int) [][]byte { return one(arrN(n * 4)) }, run: readAll},
 		{name: "many strings with escapes in one array", gen: func(n int) [][]byte { return one("[" + strings.Repeat(`"a\nbéc",`, n) + `""]`) }, run: readAll},
